@@ -2,13 +2,8 @@
 C20  Connection backoff stays within the documented bounds.
 Property theorems only; helper lemmas are in GrpcProofs/Lemmas/Backoff.lean.
 
-`backoffSat` is `Exponential.Backoff` read over the reals with the property's saturating
-conversion (= the code after the suggested fix "clamp before converting"); `backoffGo` is the same
-expression with the conversion the unchanged code performs (out of range → MinInt64 on amd64).
-The statement holds of `backoffSat` for every configuration (theorems `nonneg`, `retries0_is_base`,
-`band`, `saturates`), is violated by `backoffGo` (`go_conversion_negative_counterexample`, F1), and
-`go_agrees_below_2_63` transfers every theorem to the unchanged code whenever the real-valued
-result stays below 2^63 ns (≈ 292 years).
+`backoffSat` is `Exponential.Backoff` read over the reals, with the saturating conversion the code
+performs since /repo commit 8a2d107 (`if backoff >= math.MaxInt64 { return math.MaxInt64 }`).
 -/
 import GrpcProofs.Lemmas.Backoff
 namespace GrpcProofs.C20
@@ -53,25 +48,9 @@ theorem grow_is_min (c : Config) (n : Nat) (hb : 0 ≤ c.base) (hm : 1 ≤ c.mul
     core c n = min (c.base * c.mult ^ n) c.maxDelay :=
   Lemmas.Backoff.core_eq_target c n hb hm
 
-/-- F1: with the conversion the unchanged code performs, "never negative" is false inside the
-    band hypotheses: {1s, ×10^6, jitter 1/5, MaxDelay MaxInt64}.Backoff(5) with draw 3/4 is MinInt64. -/
-theorem go_conversion_negative_counterexample :
-    ¬ ∀ (c : Config) (n : Int) (r : Rat), bandHyp c = true → 0 ≤ r → r < 1 → 0 ≤ backoffGo c n r := by
-  intro h
-  have := h { base := 1000000000, mult := 1000000, jitter := 1 / 5, maxDelay := 9223372036854775807 } 5 (3 / 4)
-    (by simp [bandHyp]; norm_num) (by norm_num) (by norm_num)
-  have h5 : (5 : Int).toNat = 5 := rfl
-  have hg : grow 1000000 9223372036854775807 5 1000000000 = 1000000000000000000000 := by norm_num [grow]
-  revert this
-  norm_num [backoffGo, backoffWith, core, h5, hg, clampMax, wrapConv, two63, minInt64]
-
-/-- Below 2^63 ns the unchanged conversion and the saturating one agree, so every theorem above
-    holds of the unchanged code whenever the real-valued result is < 2^63 (in particular when
-    (1+jitter)·MaxDelay < 2^63). -/
-theorem go_agrees_below_2_63 (c : Config) (n : Int) (r : Rat)
-    (h : n = 0 ∨ core c n.toNat * (1 + c.jitter * (r * 2 - 1)) < two63) :
-    backoffGo c n r = backoffSat c n r :=
-  Lemmas.Backoff.go_agrees c n r h
+-- (Finding F1 — the float→int64 conversion wrapping to MinInt64 — was documented here by
+-- `go_conversion_negative_counterexample` / `go_agrees_below_2_63` until /repo commit 8a2d107 added the
+-- saturation; `backoffSat` is now the code itself and `nonneg` / `band` / `saturates` hold of it in full.)
 
 /-- A subchannel whose attempt failed at t with backoff b starts no attempt before t + b unless
     ResetConnectBackoff intervenes: for every sequence of connect / dial-failed / dial-ok / timer /
